@@ -175,6 +175,42 @@ fn check_program(ast: &Ast, vars: &[(&'static str, RV)], ci: usize, st: &mut Sta
             },
         }
     }
+    // the context-free tree-level forms (no user functions there: only for programs without calls, in the
+    // context without variables): the result of evaluation in a fresh mutable context
+    if ci == 0 && rc.log.is_empty() && !src.contains("typeof") && !src.contains("r (") && !src.contains("s (") {
+        let fresh = {
+            let mut c = HCtx::new();
+            guarded(|| tree.eval_with_context_mut(&mut c)).ok()
+        };
+        if let Some(fresh) = fresh {
+            macro_rules! context_free {
+                ($name:literal, $m:ident, $proj:expr) => {{
+                    let got = guarded(|| tree.$m()).map(|r| format!("{:?}", r));
+                    let want: String = $proj(&fresh);
+                    st.evaluations += 1;
+                    match got {
+                        Ok(g) if g == want => {},
+                        Ok(g) => {
+                            st.violation(mk(concat!("context-free-form-differs/", $name), format!("{}: {} (fresh mutable context gives {})", $name, g, want)));
+                            return;
+                        },
+                        Err(p) => {
+                            st.violation(mk("panic", format!("{}: panic at {}: {}", $name, p.location, p.message)));
+                            return;
+                        },
+                    }
+                }};
+            }
+            type ER = Result<EV, EErr>;
+            context_free!("Node::eval", eval, |f: &ER| format!("{:?}", f));
+            context_free!("Node::eval_int", eval_int, |f: &ER| format!("{:?}", f.clone().and_then(|v| match v { Value::Int(i) => Ok(i), o => Err(EvalexprError::expected_int(o)) })));
+            context_free!("Node::eval_boolean", eval_boolean, |f: &ER| format!("{:?}", f.clone().and_then(|v| match v { Value::Boolean(b) => Ok(b), o => Err(EvalexprError::expected_boolean(o)) })));
+            context_free!("Node::eval_empty", eval_empty, |f: &ER| format!("{:?}", f.clone().and_then(|v| match v { Value::Empty => Ok(()), o => Err(EvalexprError::expected_empty(o)) })));
+            context_free!("Node::eval_float", eval_float, |f: &ER| format!("{:?}", f.clone().and_then(|v| match v { Value::Float(x) => Ok(x), o => Err(EvalexprError::expected_float(o)) })));
+            context_free!("Node::eval_string", eval_string, |f: &ER| format!("{:?}", f.clone().and_then(|v| match v { Value::String(x) => Ok(x), o => Err(EvalexprError::expected_string(o)) })));
+            st.count("context-free-forms-checked");
+        }
+    }
     // every typed mutable view evaluates the program exactly once too: same final variables, same calls
     // (only observable for programs that have effects)
     let initial: Vec<(String, String)> = ref_context(vars).vars.iter().map(|(k, v)| (k.clone(), v.key())).collect();
@@ -448,6 +484,30 @@ fn scaling(thorough: bool) -> Stats {
                     asg.push(Ast::Var("x".into()));
                     programs.push(Ast::Chain(asg));
                 }
+                // flat sequences mixing both separators without parentheses (`a; b, c; d`): a chain of tuples,
+                // in four separator patterns (a tuple first, in the middle, last; tuples of two and of three)
+                if n >= 3 {
+                    for pattern in 0..4usize {
+                        let mut chain: Vec<Ast> = Vec::new();
+                        let mut tuple: Vec<Ast> = Vec::new();
+                        for (i, e) in elems.iter().enumerate() {
+                            tuple.push(e.clone());
+                            let semicolon_after = match pattern {
+                                0 => i % 2 == 1,          // a, b; c, d; ...
+                                1 => i % 3 != 1,          // a; b, c; d; e, f; ...
+                                2 => i % 3 == 2,          // a, b, c; d, e, f; ...
+                                _ => i + 1 < n - 1,       // a; b; ...; y, z
+                            };
+                            if semicolon_after || i + 1 == n {
+                                chain.push(if tuple.len() == 1 { tuple.pop().unwrap() } else { Ast::Tuple(std::mem::take(&mut tuple)) });
+                                tuple.clear();
+                            }
+                        }
+                        if chain.len() >= 2 {
+                            programs.push(Ast::Chain(chain));
+                        }
+                    }
+                }
                 // nested arguments: r(s(r(...(0))))
                 let mut nested = int(0);
                 for i in 0..n {
@@ -603,7 +663,7 @@ pub fn run(cfg: &Cfg) -> Report {
     Report {
         property: ID,
         level: "model_checking",
-        rule: format!("axis 1: every program with <= {n_hash} operator nodes over {{x = e, y = e, x += e, x &&= e, r(e), s(e), typeof(e) (a failing user function that shadows a total builtin), -e, e + (missing operand), e + e, e && e, e || e, e / e, e < e, e == e (the two comparisons up to 2 operator nodes in the quick tier), (e, e), (e; e)}} and leaves {{1, 0, true, false, x, unbound u, (), 1/0, true+1}} x 4 initial contexts (x unbound / int / boolean / empty tuple; the fourth up to 2 operator nodes in the quick tier) on the real HashMapContext with recording functions, each program through eval_with_context_mut, through the shared-context walker (result and call log against the reference in read-only mode) and, if it has effects, through all 7 typed mutable views (same final variables and call log: evaluated exactly once); axis 2: the same programs (<= {n_script2} operator nodes with <= 2 deviations, <= {n_script1} with <= 1) against a scripted Context whose i-th answer (get_value / call_function / set_value) deviates from the default as chosen by a deviation-bounded depth-first exploration; oracle: reference interpreter driven by the same script (result, final variables, ordered call log with arguments, ordered sequence of context interactions). Plus 405 assignments whose left operand is a computed expression (9 left operands x 5 right operands x 9 assignment operators: left operand's calls, then the right operand's, first failure wins; the meaning of the assignment itself is not claimed). Plus scaling families: chains, tuples, sums, op-assign sequences and nested arguments of n recording calls for every n in 1..20 and up to 129 (quick) / 1..40 and up to 400 (thorough) with the failing call at every position (chosen positions above 20). States = (program, context) pairs explored on axis 2, transitions = scripted executions. Non-trivial = failing after effects, or >= 2 logged calls, or a deviating script; each (program, context, script) triple is enumerated exactly once, so the counter counts distinct cases"),
+        rule: format!("axis 1: every program with <= {n_hash} operator nodes over {{x = e, y = e, x += e, x &&= e, r(e), s(e), typeof(e) (a failing user function that shadows a total builtin), -e, e + (missing operand), e + e, e && e, e || e, e / e, e < e, e == e (the two comparisons up to 2 operator nodes in the quick tier), (e, e), (e; e)}} and leaves {{1, 0, true, false, x, unbound u, (), 2.5, \" s \", 1/0, true+1}} (the float and the string up to 2 operator nodes in the quick tier) x 4 initial contexts (x unbound / int / boolean / empty tuple; the fourth up to 2 operator nodes in the quick tier) on the real HashMapContext with recording functions, each program through eval_with_context_mut, through the shared-context walker (result and call log against the reference in read-only mode) and, if it has effects, through all 7 typed mutable views (same final variables and call log: evaluated exactly once), and call-free programs through the context-free Node::eval / eval_int / eval_boolean / eval_empty / eval_float / eval_string (= a fresh mutable context); axis 2: the same programs (<= {n_script2} operator nodes with <= 2 deviations, <= {n_script1} with <= 1) against a scripted Context whose i-th answer (get_value / call_function / set_value) deviates from the default as chosen by a deviation-bounded depth-first exploration; oracle: reference interpreter driven by the same script (result, final variables, ordered call log with arguments, ordered sequence of context interactions). Plus 405 assignments whose left operand is a computed expression (9 left operands x 5 right operands x 9 assignment operators: left operand's calls, then the right operand's, first failure wins; the meaning of the assignment itself is not claimed). Plus scaling families: chains, tuples, unparenthesised chains of tuples in four separator patterns, sums, op-assign sequences and nested arguments of n recording calls for every n in 1..20 and up to 129 (quick) / 1..40 and up to 400 (thorough) with the failing call at every position (chosen positions above 20). States = (program, context) pairs explored on axis 2, transitions = scripted executions. Non-trivial = failing after effects, or >= 2 logged calls, or a deviating script; each (program, context, script) triple is enumerated exactly once, so the counter counts distinct cases"),
         nontrivial_set: "counter:nontrivial-distinct",
         exhaustive: true,
         bound_completed: format!("programs of {n_hash} operator nodes; 2 deviations up to {n_script2} nodes, 1 deviation up to {n_script1}"),
